@@ -45,12 +45,12 @@ Proof. intros lf bf. repeat split; reflexivity. Qed.
    macro / the loop's else) and _block_vars exactly in block frames (repaired by the fix: commits
    9fa25ee and 55e3ad6; before them the emitted call repeated the keyword or silently dropped it) *)
 Theorem C01_engine_keywords :
-  gen false false false (SCallBlock [] [CALLER] []) = SyntaxErr /\
+  gen false false false (SCallBlock [] [] [CALLER] []) = SyntaxErr /\
   (forall il lf bf, gen il lf bf (SCallKw [LOOPVARS]) = SyntaxErr /\ gen il lf bf (SCallKw [BLOCKVARS]) = SyntaxErr) /\
   gen false false false (SCallKw [CALLER]) = Ok [PCall [CALLER]] /\
   gen false false false (SFor false [SInline true [SCallKw []]; SIf [SSame [SCallKw [10]]] []] [SCallKw []])
     = Ok [PFor [PCall []; PIf [PCall [10; LOOPVARS]]; PIf []]; PIf [PCall []]] /\
-  gen false false false (SBlock [SFor false [SCallKw []] []; SCallBlock [] [] []])
+  gen false false false (SBlock [SFor false [SCallKw []] []; SCallBlock [] [] [] []])
     = Ok [PDef [] [PFor [PCall [LOOPVARS]]; PIf []; PDef [] []; PCall [CALLER; BLOCKVARS]]; PSimple].
 Proof. repeat split; try (destruct lf, bf); vm_compute; reflexivity. Qed.
 
